@@ -364,6 +364,21 @@ func (vc *FnVC) doAlloc(x *ssa.Alloc, st *State) {
 			comp, _ := vc.cellComp(t)
 			vc.privCells = append(vc.privCells, privCell{ref: r, comp: comp})
 		}
+	} else if !isStruct {
+		if _, isArr := t.Underlying().(*types.Array); !isArr {
+			inLoop := func(b *ssa.BasicBlock) bool {
+				for _, li := range vc.loops {
+					if li.body[b] || li.header == b {
+						return true
+					}
+				}
+				return false
+			}
+			if caps, ok := condPrivateCell(x, inLoop); ok {
+				comp, _ := vc.cellComp(t)
+				vc.privCells = append(vc.privCells, privCell{ref: r, comp: comp, caps: caps})
+			}
+		}
 	}
 }
 
